@@ -223,9 +223,41 @@ func codecSignature(p *Prog, fn *ssa.Function, partial *types.Named, version int
 			}
 		}
 	}
+	// helpers the per-child (or per-field) work was moved into are looked through: functions of
+	// package codecs that are handed, or return, a piece of the partial message
+	structural := func(h *ssa.Function) bool {
+		if h == nil || h == fn || h.Blocks == nil || h.Parent() != nil || h.Pkg == nil || h.Pkg.Pkg.Path() != pkgPath("codecs") {
+			return false
+		}
+		mentions := func(t types.Type) bool {
+			n := namedOf(t)
+			if n == nil || n.Obj().Pkg() == nil || n.Obj().Pkg().Path() != pkgPath("codecs") {
+				return false
+			}
+			_, isStruct := n.Underlying().(*types.Struct)
+			return isStruct && strings.HasPrefix(n.Obj().Name(), "Partial")
+		}
+		sig := h.Signature
+		for i := 0; i < sig.Params().Len(); i++ {
+			if mentions(sig.Params().At(i).Type()) {
+				return true
+			}
+		}
+		for i := 0; i < sig.Results().Len(); i++ {
+			if mentions(sig.Results().At(i).Type()) {
+				return true
+			}
+		}
+		return false
+	}
+	prevInline := s.Inline
+	s.Inline = func(f *ssa.Function) bool { return structural(f) || (prevInline != nil && prevInline(f)) }
 	s.Model = func(sm *Sim, st *State, call ssa.CallInstruction, callee *ssa.Function) []*State {
-		if call.Parent() != fn {
+		if call.Parent() != fn && !structural(call.Parent()) {
 			return nil
+		}
+		if structural(callee) {
+			return nil // inlined
 		}
 		c := call.Common()
 		fork := func(el string, tuple bool) []*State {
